@@ -198,7 +198,7 @@ async def execute(gen, ops, w: SockWorld, run: Run, counters=None):
                 cache[tuple(pol)] = policy
             else:
                 policy.max_retries, policy.max_lifetime = pol[0], pol[1]
-            if rec.get("mode") == "hdr":
+            if rec.get("mode") in ("hdr", "hdr_same"):
                 # the other public entry point: caller-supplied header
                 reg = H.registry(gen)
                 if rec["kind"] == "bad:unregistered":
@@ -211,7 +211,20 @@ async def execute(gen, ops, w: SockWorld, run: Run, counters=None):
                     hdr = dataclasses.replace(hdr, message_id=msg.message_id, message_length=0)
                 else:
                     size = reg.get_encoder(msg.message_id).size(msg)
-                    hdr = reg.header_factory.create_from_message(msg, size)
+                    last = run.__dict__.setdefault("last_hdr", {})
+                    prev = last.get(rec["kind"])
+                    if rec["mode"] == "hdr_same" and prev is not None \
+                            and prev.message_length == size:
+                        # a caller that numbers its packets itself and uses a number again:
+                        # an equal header for another message
+                        import dataclasses
+                        hdr = dataclasses.replace(prev)
+                        rec["pid"], rec["to"] = hdr.packet_id, hdr.to_address
+                        H.HDR_SINK[0] = None
+                        log.add("SCRIPT.header_reused", pid=hdr.packet_id)
+                    else:
+                        hdr = reg.header_factory.create_from_message(msg, size)
+                    last[rec["kind"]] = hdr
                 await w.sock.send_with_header(hdr, msg, policy)
             else:
                 await w.sock.send(msg, policy)
@@ -248,7 +261,7 @@ async def execute(gen, ops, w: SockWorld, run: Run, counters=None):
             rec = {"serial": (kind, n), "kind": kind, "policy": pol, "typ": typ, "data": data,
                    "outcome": "pending", "ret_seq": None, "mode": mode}
             run.sends.append(rec)
-            if mode in ("inline", "hdr"):
+            if mode in ("inline", "hdr", "hdr_same"):
                 await do_send(msg, rec, pol)
             else:
                 tasks.append(loop.create_task(do_send(msg, rec, pol)))
